@@ -192,7 +192,9 @@ pub fn run(ctx: &Ctx, focus: &str) -> Result<()> {
 				// "other" is not a vector tile, but it lives at another coordinate that is never merged
 				stored.retain(|(c3, _)| c3.0 == 3);
 				if stored.is_empty() { stored.push(((4, 0, 0), compress(Blob::from(enc_tile(&vec![])), &c).unwrap().into_vec())); }
-				register(&name, Box::new(MemSource::new(&name, stored, TileFormat::PBF, c)));
+				// some sources answer at once, others suspend a few times first (real readers do I/O): the result may not depend on it
+				let yields = *rng.pick(&[0usize, 0, 1, 2, 5]);
+				register(&name, Box::new(MemSource::new(&name, stored, TileFormat::PBF, c).with_yields(yields)));
 				names.push(name);
 			}
 			let vpl = format!("from_vectortiles_merged [ {} ]", names.iter().map(|n| format!("from_container filename={n}")).collect::<Vec<_>>().join(", "));
